@@ -670,17 +670,23 @@ def check_registrations(case):
                 raise Violation("offset-mutated", f"{what}: the stored offset of the center of '{nm}' changed from "
                                 f"{before.tolist()} to {now.tolist()}", frame=nm)
 
-    def table_intact(what):
-        for (src, dst), before in table.items():
+    def table_intact(what, keys=None):
+        for (src, dst) in (table if keys is None else keys):
+            before = table[(src, dst)]
             now = conv(src, dst)[0]
             if not np.array_equal(now, before):
                 raise Violation("pre-existing-changed", f"{what}: {src} -> {dst} of the same state changed from "
                                 f"{before.tolist()} to {now.tolist()}", src=src, dst=dst)
 
     def after_conversion(what):
+        """After every single conversion: every stored offset, and the recorded conversions that touch a
+        generated frame (at most 6, the latest first; the whole table is compared after every
+        registration and at the end - 30 x 2 conversions after each of ~250 conversions was 5 min a case)."""
         nconv[0] += 1
         offsets_intact(what)
-        table_intact(what)
+        gen = {g[0] for g in generated}
+        hot = [k for k in table if k[0] in gen or k[1] in gen][-6:]
+        table_intact(what, hot)
 
     record(6)
     graph_audit(orient.EME2000, "orientation")
@@ -817,6 +823,6 @@ FACETS = [
     Facet("graphs", graph_case, check_graph_case, setup=_setup,
           rule=">= 4 nodes", quick=(8, 500), thorough=(16, 5000)),
     Facet("registrations", reg_case, check_registrations, setup=_setup,
-          rule="at least one registration between two conversions", quick=(16, 10), thorough=(32, 16),
+          rule="at least one registration between two conversions", quick=(16, 8), thorough=(32, 16),
           shrink_quick=False, case_timeout=300),
 ]
